@@ -193,6 +193,9 @@ func (r *Report) Finish() int {
 		return nil
 	}
 	evdir := filepath.Join(VerifDir(), "evidence")
+	if d := os.Getenv("VERIF_EVIDENCE_DIR"); d != "" { // seeded-change runs must not overwrite real evidence
+		evdir = d
+	}
 	vdir := filepath.Join(evdir, "violations")
 	_ = os.MkdirAll(vdir, 0o755)
 	// remove stale replay artefacts of this property
